@@ -775,6 +775,34 @@ package yang
 //@ init_only Int8Range Int16Range Int32Range Int64Range Uint8Range Uint16Range Uint32Range Uint64Range revisionDateSuffixRegex
 
 // ---------------------------------------------------------------------------
+// C09: type names bind lexically.
+//
+// The typedef dictionary maps (defining node, name) to the typedef; find reads
+// it, add files exactly one entry and changes nothing else.
+//@ spec dictFind(d *typeDictionary, n Node, name string) *Typedef = d.dict[n] == nil ? nil : d.dict[n][name]
+//@ func (*typeDictionary).find props C09
+//@   requires d != nil
+//@   ensures  result == dictFind(d, n, name)
+//@   modifies nothing
+//@   safe
+//@ pred dictOK(d *typeDictionary) = d != nil && d.dict != nil && (forall m1 Node, m2 Node :: m1 != m2 && d.dict[m1] != nil ==> d.dict[m1] != d.dict[m2])   -- every node has its own table
+//@ func (*typeDictionary).add props C09
+//@   requires dictOK(d)
+//@   ensures  dictOK(d) && dictFind(d, n, name) == td
+//@   ensures  forall m Node, k string :: (m != n || k != name) ==> dictFind(d, m, k) == old(dictFind(d, m, k))
+//@   safe
+// A foreign prefix denotes the top level of exactly the module the referencing
+// module imports under that prefix: findExternal looks nowhere else.
+//@ func (*typeDictionary).findExternal props C09
+//@   requires d != nil && (n != nil ==> rootOf(n) != nil && rootOf(n).Modules != nil)
+//@   requires n != nil ==> (forall i int :: 0 <= i && i < len(rootOf(n).Import) ==> rootOf(n).Import[i] != nil && rootOf(n).Import[i].Prefix != nil)
+//@   ensures  result1 == nil ==> result != nil && n != nil
+//@   ensures  result1 != nil ==> result == nil
+//@   ensures  result1 == nil && prefix != "" && prefix != old(ownPrefix(rootOf(n))) ==> result == dictFind(d, iface(importOf(old(rootOf(n)), prefix)), name)
+//@   ensures  result1 == nil && (prefix == "" || prefix == old(ownPrefix(rootOf(n)))) ==> result == dictFind(d, iface(old(rootOf(n))), name)
+//@   safe
+
+// ---------------------------------------------------------------------------
 // C11: identities.
 //
 //@ pred idIn(x *Identity, s []*Identity, k int) = exists i int :: 0 <= i && i < k && s[i] == x
